@@ -77,7 +77,7 @@ def compile_flags(scratch):
         if not fl:
             fl = list(DEFAULT_FLAGS)
             if u == 'mir2c':
-                fl = [x for x in fl if x != '-DNDEBUG'] + ['-DTEST_MIR2C']
+                fl = fl + ['-DTEST_MIR2C']
         # the library is built RelWithDebInfo => NDEBUG; cmake puts it in CMAKE_C_FLAGS_<CONFIG>
         if u != 'mir2c' and '-DNDEBUG' not in fl:
             fl.append('-DNDEBUG')
